@@ -156,6 +156,16 @@ pub enum Kind {
     Mapped(usize),
     Stream,
     MStream(usize),
+    /// `&[char; N]`
+    Array,
+    /// `Stream::boxed()`
+    BStream,
+    /// `Input::map` over an `IoInput` (ASCII tokens; token `b` gets the span `b..b+1`)
+    IoMap,
+    /// `.with_context(())` over `&[char]`
+    WCtx,
+    /// `.map_span(|s| s + 1000)` over `&[char]`
+    MSpan,
 }
 
 #[derive(Clone, Copy, Debug, PartialEq, Eq)]
@@ -414,6 +424,11 @@ impl<'a> Rd<'a> {
             "mapped1" => Kind::Mapped(1),
             "mapped3" => Kind::Mapped(3),
             "stream" => Kind::Stream,
+            "array" => Kind::Array,
+            "bstream" => Kind::BStream,
+            "iomap" => Kind::IoMap,
+            "wctx" => Kind::WCtx,
+            "mspan" => Kind::MSpan,
             "mstream0" => Kind::MStream(0),
             "mstream1" => Kind::MStream(1),
             "mstream3" => Kind::MStream(3),
